@@ -34,3 +34,37 @@ Definition sptensor_squeeze_res (self : sptz) : option (C07Ops.sq_res (V:=Z) (sp
   | Ok (NpZ4d.SqScalar v) => Some (C07Ops.SqScalar v)
   | Err => None
   end.
+
+(* ---------------- wave 6: sptensor.squeeze's return statements with the singleton test as a parameter.  `keep d` = "mode size d is
+   no singleton": /repo up to 6e4bb42 tests `shape > 1` (keep = Nat.ltb 1: squeeze_sp_impl of Model/C07Impl.v, a size-0 mode is
+   dropped like a singleton — finding N-C07-7), the repaired text (fixes/C07-N-C07-7.diff) tests `shape != 1` (a size-0 mode is kept) *)
+Fixpoint sqk {A} (keep : nat -> bool) (s : list nat) (l : list A) : list A :=
+  match s, l with
+  | d :: s', x :: l' => if keep d then x :: sqk keep s' l' else sqk keep s' l'
+  | _, _ => []
+  end.
+
+Definition squeeze_sp_impl_k {V : Type} (keep : nat -> bool) (v0 : V) (S : sparse V) : option (C07Ops.sq_res (V:=V) (sparse V)) :=
+  let s := sshape S in
+  if forallb keep s then Some (C07Ops.SqT S)
+  else match sqk keep s s with
+       | [] => match svals S with
+               | [] => Some (C07Ops.SqScalar v0)
+               | [v] => Some (C07Ops.SqScalar v)
+               | _ :: _ :: _ => None
+               end
+       | s' => if Nat.eqb (length (svals S)) 0 then Some (C07Ops.SqT (mkSp s' [] []))
+               else Some (C07Ops.SqT (mkSp s' (map (sqk keep s) (ssubs S)) (svals S)))
+       end.
+
+Definition ne1 (d : nat) : bool := negb (Nat.eqb d 1).
+(* the return statements of the repaired sptensor.squeeze (`shapeArray != 1`) *)
+Definition squeeze_sp_impl_ne {V : Type} (v0 : V) (S : sparse V) := squeeze_sp_impl_k ne1 v0 S.
+
+(* probe of the text regenerated on THIS run: does the generated sptensor.squeeze keep a size-0 mode?  (the witness of N-C07-7:
+   shape (2,0,1), nothing stored, must come back with shape (2,0)) *)
+Definition sq_text_keeps_zero : bool :=
+  match sptensor_squeeze (mkspt [] [] [2; 0; 1]%Z) with
+  | Ok (NpZ4d.SqTensor t) => match spt_shape t with [2; 0]%Z => true | _ => false end
+  | _ => false
+  end.
